@@ -261,4 +261,129 @@ theorem groupTextlines_spec (p : LAParams) (pageBB : BB)
   refine (List.Perm.filterMap _ hpart.1).trans ?_
   rw [filterMap_range_getElem?]
 
+/-! ## a box only holds lines of its own class -/
+
+def ClsInv (cls : Nat → Bool) (d : BoxDict) : Prop :=
+  ∀ k b, (k, b) ∈ d → ∀ m ∈ b.members, cls m = cls b.bid
+
+theorem gtlStep_cls {cls : Nat → Bool} {d : BoxDict} (hp : PInv d) (hc : ClsInv cls d) (i : Nat) (nbs : List Nat)
+    (hnb : ∀ j ∈ nbs, cls j = cls i) : ClsInv cls (gtlStep d i nbs) := by
+  obtain ⟨_, B, hBid, _, hBm, hmem⟩ := gtlStep_spec d i nbs hp.keysNodup
+  intro k b hkb m hm
+  rcases (hmem k b).mp hkb with ⟨h1, _⟩ | ⟨_, rfl⟩
+  · exact hc k b h1 m hm
+  · rw [hBid]
+    rcases (hBm m).mp hm with rfl | hin | ⟨o, ho, b', hob', hmb'⟩
+    · rfl
+    · exact hnb m hin
+    · have h1 := hc o b' hob' m hmb'
+      have h2 := hc o b' hob' o (hp.self o b' hob')
+      rw [h1, ← h2]
+      exact hnb o ho
+
+theorem gtlDict_cls {n : Nat} {nb : Nat → List Nat} {cls : Nat → Bool} (hnb : ∀ i, ∀ j ∈ nb i, j < n)
+    (H : (∀ i, i < n → i ∈ nb i) ∨ (∀ i, nb i = [])) (hcls : ∀ i, ∀ j ∈ nb i, cls j = cls i) :
+    ∀ (idx seen : List Nat) (d : BoxDict), RunInv n nb seen d → ClsInv cls d → (∀ i ∈ idx, i < n) →
+      (seen.reverse ++ idx).Nodup → ClsInv cls (gtlDict nb d idx) := by
+  intro idx
+  induction idx with
+  | nil => intro seen d _ hc _ _; simpa [gtlDict] using hc
+  | cons i rest ih =>
+    intro seen d h hc hlt hnd
+    have his : i ∉ seen := by
+      intro hcc
+      rw [List.nodup_append] at hnd
+      exact hnd.2.2 i (List.mem_reverse.mpr hcc) i List.mem_cons_self rfl
+    have hrun := gtlStep_run h i (hlt i List.mem_cons_self) his (hnb i) H
+    have hc' := gtlStep_cls h.p hc i (nb i) (hcls i)
+    simp only [gtlDict]
+    exact ih (i :: seen) _ hrun hc' (fun j hj => hlt j (List.mem_cons_of_mem _ hj))
+      (by simpa [List.reverse_cons, List.append_assoc] using hnd)
+
+theorem gtl_cls (n : Nat) (nb : Nat → List Nat) (cls : Nat → Bool) (hnb : ∀ i, ∀ j ∈ nb i, j < n)
+    (H : (∀ i, i < n → i ∈ nb i) ∨ (∀ i, nb i = [])) (hcls : ∀ i, ∀ j ∈ nb i, cls j = cls i) :
+    ∀ t ∈ gtlYield (gtlDict nb [] (List.range n)) [] (List.range n), ∀ m ∈ t.members, cls m = cls t.bid := by
+  have h0 : RunInv n nb [] [] := by
+    refine ⟨⟨by simp [keys], ?_, ?_, ?_, ?_⟩, by simp, ?_, by simp [keys], by simp [keys]⟩ <;> simp
+  have hrun := gtlDict_run hnb H (List.range n) [] [] h0 (fun i hi => List.mem_range.mp hi)
+    (by simpa using List.nodup_range)
+  have hc := gtlDict_cls hnb H hcls (List.range n) [] [] h0 (by intro k b h; simp at h)
+    (fun i hi => List.mem_range.mp hi) (by simpa using List.nodup_range)
+  simp only [List.append_nil] at hrun
+  have hy := gtlYield_spec hrun.p (List.range n) []
+  intro t ht m hm
+  obtain ⟨_, i, _, hit⟩ := hy.1 t ht
+  exact hc i t hit m hm
+
+theorem neighbors_same_class (ratio : Rat) (plane : Plane.Plane) (lines : List Line) (l : Line) :
+    ∀ j ∈ neighbors ratio plane lines l, (lines[j]?.map (·.vertical)).getD false = l.vertical := by
+  intro j hj
+  simp only [neighbors, List.mem_map, List.mem_filter] at hj
+  obtain ⟨o, ⟨_, ho⟩, rfl⟩ := hj
+  split at ho
+  · rename_i m hm
+    simp only [hm, Option.map_some, Option.getD_some]
+    simp only [isNeighbor] at ho
+    split at ho
+    · rename_i hv
+      simp only [neighbor_filter_v, Bool.and_eq_true] at ho
+      rw [hv]; exact ho.1.1
+    · rename_i hv
+      simp only [neighbor_filter_h, Bool.and_eq_true, Bool.not_eq_true'] at ho
+      rw [Bool.not_eq_true] at hv
+      rw [hv]; exact ho.1.1
+  · simp at ho
+
+/-- Every box returned by `group_textlines` only holds lines of the box's class. -/
+theorem groupTextlines_uniform (p : LAParams) (pageBB : BB)
+    (hp : pageBB.x0 ≤ pageBB.x1 ∧ pageBB.y0 ≤ pageBB.y1) (lines : List Line)
+    (hne : ∀ l ∈ lines, l.isEmpty = false) :
+    ∀ b ∈ groupTextlines p pageBB lines, ∀ l ∈ b.lines, l.vertical = b.vertical := by
+  set plane := mkPlane pageBB (lines.zipIdx.map fun (x : Line × Nat) => x.1.pobj x.2) with hplane
+  set nbOf : Nat → List Nat := fun i =>
+    match lines[i]? with
+    | some l => neighbors p.line_margin plane lines l
+    | none => [] with hnbOf
+  set cls : Nat → Bool := fun i => (lines[i]?.map (·.vertical)).getD false with hclsdef
+  have hnb : ∀ i, ∀ j ∈ nbOf i, j < lines.length := by
+    intro i j hj
+    simp only [hnbOf] at hj
+    split at hj
+    · exact neighbors_lt _ _ _ _ j hj
+    · simp at hj
+  have H : (∀ i, i < lines.length → i ∈ nbOf i) ∨ (∀ i, nbOf i = []) := by
+    by_cases hr : 0 ≤ p.line_margin
+    · left
+      intro i hi
+      have hget : lines[i]? = some lines[i] := List.getElem?_eq_getElem hi
+      simp only [hnbOf, hget]
+      exact self_neighbor _ hr pageBB hp lines hne i _ hget
+    · right
+      intro i
+      simp only [hnbOf]
+      split
+      · rename_i l hl
+        exact neighbors_nil_of_neg _ (by grind) _ _ _ (hne l (List.mem_of_getElem? hl))
+      · rfl
+  have hcls : ∀ i, ∀ j ∈ nbOf i, cls j = cls i := by
+    intro i j hj
+    simp only [hnbOf] at hj
+    split at hj
+    · rename_i l hl
+      have := neighbors_same_class _ _ _ _ j hj
+      simp only [hclsdef, hl, Option.map_some, Option.getD_some]
+      exact this
+    · simp at hj
+  have hall := gtl_cls lines.length nbOf cls hnb H hcls
+  intro b hb l hl
+  simp only [groupTextlines, List.mem_filter, List.mem_map] at hb
+  obtain ⟨⟨t, ht, rfl⟩, _⟩ := hb
+  simp only [mkBox, List.mem_filterMap] at hl
+  obtain ⟨m, hm, hlm⟩ := hl
+  have := hall t ht m hm
+  simp only [hclsdef, hlm, Option.map_some, Option.getD_some] at this
+  simp only [mkBox, boxVertical]
+  exact this
+
+
 end PdfVerif.Layout
